@@ -277,6 +277,15 @@ class TableReads:
     what the (faulted) read returned. Faults: fail-stop errors, and 'truncated' = transient torn read
     (the file was being rewritten while THIS read happened; pandas parses the first half)."""
 
+    # the five reader functions of the herd tables (used by engine H's in-process table cache)
+    NAMES = [
+        "read_animal_population_data",
+        "read_animal_nutrition_data",
+        "read_animal_options",
+        "read_animal_regional_factors",
+        "read_country_data",
+    ]
+
     def __init__(self, log=None):
         self.log = log
         self.count = 0
